@@ -54,6 +54,55 @@ def _replay_one(core, mod, path):
     return rec, bad
 
 
+def _start_fuzz(core, mod, prop, subs, a, seed):
+    """spawns one atheris child per sub-check listed in the module's FUZZ = {sub: runs}; returns (jobs, note)"""
+    import shutil
+    import subprocess
+    import tempfile
+    plan = getattr(mod, "FUZZ", {})
+    want = a.fuzz == "on" or (a.fuzz == "auto" and a.tier == "thorough")
+    plan = {k: v for k, v in plan.items() if any(s.name == k for s in subs)}
+    if not want or not plan:
+        return [], None
+    try:
+        import atheris  # noqa: F401
+    except Exception as e:
+        return [], "atheris not importable (%s): coverage-guided stage skipped" % type(e).__name__
+    jobs = []
+    for name, runs in plan.items():
+        d = tempfile.mkdtemp(prefix="vt-fuzz-")
+        out = os.path.join(d, "stats.json")
+        cmd = [sys.executable, "-W", "ignore", "-m", "vt.fuzz", prop, name, "--runs", str(runs if a.tier == "thorough" else max(500, runs // 10)),
+               "--seed", str(core.derive_seed(seed, prop, name, "fuzz") % (2 ** 31 - 1) + 1), "--repo", a.repo,
+               "--out", out, "--corpus", os.path.join(d, "corpus")]
+        p = subprocess.Popen(cmd, stdout=subprocess.PIPE, stderr=subprocess.STDOUT, text=True, cwd=core.VERIF)
+        jobs.append((name, p, d, out, shutil))
+    return jobs, None
+
+
+def _collect_fuzz(core, jobs, found, errors):
+    import re
+    info = {}
+    for name, p, d, out, shutil in jobs:
+        log, _ = p.communicate()
+        st = core.Stats()
+        try:
+            with open(out) as f:
+                rec = core.unjson(json.load(f))
+            st.merge(rec["stats"])
+            found.extend(rec["violations"])
+        except Exception as e:
+            errors.append("[fuzz:%s] no statistics: %s\n%s" % (name, e, log[-1500:]))
+        done = re.findall(r"#(\d+)\s+DONE\s+cov: (\d+) ft: (\d+) corp: (\d+)", log)
+        if p.returncode != 0 or not done:
+            errors.append("[fuzz:%s] atheris child exit %s\n%s" % (name, p.returncode, log[-1500:]))
+        info[name] = {"stats": st}
+        if done:
+            info[name].update(executions=int(done[-1][0]), cov=int(done[-1][1]), ft=int(done[-1][2]), corpus_units=int(done[-1][3]))
+        shutil.rmtree(d, ignore_errors=True)
+    return info
+
+
 def main(argv=None):
     ap = argparse.ArgumentParser()
     ap.add_argument("prop")
@@ -63,6 +112,8 @@ def main(argv=None):
     ap.add_argument("--jobs", type=int, default=min(16, os.cpu_count() or 1))
     ap.add_argument("--only", help="comma-separated sub-check names")
     ap.add_argument("--no-evidence", action="store_true")
+    ap.add_argument("--fuzz", choices=["auto", "on", "off"], default="auto",
+                    help="coverage-guided stage (atheris) for the sub-checks a module lists in FUZZ: auto = thorough tier only")
     a = ap.parse_args(argv)
     prop = a.prop.upper()
     try:
@@ -130,6 +181,7 @@ def main(argv=None):
             tasks.append((prop, s.name, a.tier, seed, k, n))
     per_sub = {s.name: core.Stats() for s in subs}
     found = []
+    fuzz_jobs, fuzz_note = _start_fuzz(core, mod, prop, subs, a, seed)
     if tasks:
         if a.jobs > 1:
             ctx = multiprocessing.get_context("fork")
@@ -143,6 +195,8 @@ def main(argv=None):
                 continue
             per_sub[r["sub"]].merge(r["stats"])
             found.extend(r["violations"])
+
+    fuzz_info = _collect_fuzz(core, fuzz_jobs, found, errors)
 
     # ---- write replay files for new violations (one per root-cause key) ------------------------
     seen_keys = set(k for k, _, _ in violations)
@@ -176,6 +230,18 @@ def main(argv=None):
                              "known_excluded": dict(st.known), "classes": dict(st.classes),
                              "enumerated_space": st.space if ran_enum else 0,
                              "enumerated_completely": bool(ran_enum), "rule": s.rule}
+    for name, fi in fuzz_info.items():
+        st = fi.pop("stats")
+        total.merge(st.dump())
+        for k, c in st.known.items():
+            known_seen[k] = known_seen.get(k, 0) + c
+        breakdown["fuzz:" + name] = dict(fi, evaluations=st.evaluations, distinct_nontrivial=len(st.nontrivial),
+                                         shrink_evaluations=0, undefined_domain=st.undefined, known_excluded=dict(st.known),
+                                         classes=dict(st.classes), enumerated_space=0, enumerated_completely=False,
+                                         rule="coverage-guided (atheris/libFuzzer, tracklib instrumented) mutation of the byte "
+                                              "stream behind the same Hypothesis strategy and oracle as sub-check '%s'" % name)
+    if fuzz_note:
+        breakdown["fuzz"] = {"skipped": fuzz_note}
     wall = time.time() - t0
     if not a.no_evidence and not a.only:
         ev = {
@@ -206,6 +272,13 @@ def main(argv=None):
     print("%s tier=%s seed=%d: %d evaluations (%d distinct non-trivial, %d undefined-domain, %d replayed) in %.1fs" % (
         prop, a.tier, seed, total.evaluations, len(total.nontrivial), total.undefined, n_replayed, wall))
     for n, b in breakdown.items():
+        if "evaluations" not in b:
+            print("  %-28s %s" % (n, b))
+            continue
+        if n.startswith("fuzz:"):
+            print("  %-28s eval=%-8d nontrivial=%-7d executions=%s coverage-edges=%s features=%s" % (
+                n, b["evaluations"], b["distinct_nontrivial"], b.get("executions"), b.get("cov"), b.get("ft")))
+            continue
         print("  %-28s eval=%-8d nontrivial=%-7d known=%s classes=%s" % (
             n, b["evaluations"], b["distinct_nontrivial"], b["known_excluded"] or "-",
             dict(sorted(b["classes"].items())) or "-"))
